@@ -76,8 +76,9 @@ Qed.
 Print Assumptions C17_restart_no_skip_later.
 
 (* EXACTNESS of a tick on any state (so the safety theorems are not satisfied by lagging behind): the value
-   returned is the greatest expected sequence up to which everything expected is processed, and nothing is
-   returned only when the smallest expected sequence is unprocessed (or nothing is expected) *)
+   returned is the greatest expected sequence up to which everything expected is processed, what stays
+   expected is at or above it, the processed marks at or below it are released, and nothing is returned only
+   when the smallest expected sequence is unprocessed (or nothing is expected) *)
 Theorem C17_tick_exact : forall thr st st' ou, step thr st Tick = (st', ou) ->
   match ret ou with
   | Some s =>
@@ -85,7 +86,8 @@ Theorem C17_tick_exact : forall thr st st' ou, step thr st Tick = (st', ou) ->
       (forall x, In x (expected st) -> (before x s = true \/ x = s) -> In x (processed st)) /\
       (forall y, In y (expected st) ->
          (forall x, In x (expected st) -> (before x y = true \/ x = y) -> In x (processed st)) -> sle y s) /\
-      (forall x, In x (expected st') -> In x (expected st) /\ sle s x)
+      (forall x, In x (expected st') -> In x (expected st) /\ sle s x) /\
+      (forall x, In x (expected st) -> (before x s = true \/ x = s) -> ~ In x (processed st'))
   | None =>
       expected st = [] \/
       exists m, In m (expected st) /\ ~ In m (processed st) /\ forall x, In x (expected st) -> sle m x
@@ -94,10 +96,11 @@ Proof.
   intros thr st st' ou H. cbn [step] in H.
   destruct (update_lists thr (expected st) (processed st)) as [[r e2] p2] eqn:Hu.
   inversion H; subst; clear H. cbn [ret obs expected].
-  destruct (update_lists_spec _ _ _ _ _ _ Hu) as [S1 S2 S3 S4 S5 S6 S7 S8 S9].
+  destruct (update_lists_spec _ _ _ _ _ _ Hu) as [S1 S2 S3 S4 S5 S6 S7 S8 S9 S10].
   destruct r as [s|].
   - split; [apply S4; reflexivity|]. split; [apply S5; reflexivity|].
     split; [apply S7; reflexivity|]. split; [apply S8; reflexivity|].
+    split; [|cbn [processed]; apply S10; reflexivity].
     intros x Hx. split; [apply S1; exact Hx|apply (S6 s eq_refl); exact Hx].
   - apply S9; reflexivity.
 Qed.
